@@ -1,5 +1,6 @@
 import Driver.OpsApply
 import Driver.OpsCase
+import Driver.OpsCompound
 import Driver.OpsVariant
 import Driver.OpsSerde
 import Driver.OpsHistory
@@ -18,6 +19,7 @@ import Driver.OpsLock
 def handlers : List (List String → Option String) :=
   [ OpsApply.dispatch
   , OpsCase.dispatch
+  , OpsCompound.dispatch
   , OpsVariant.dispatch
   , OpsSerde.dispatch
   , OpsHistory.dispatch
